@@ -15,6 +15,10 @@ type CodeWriter struct {
 	WriteSemicolons bool
 
 	pendings []rune
+
+	// literalRanges are the byte ranges of the output that hold the text of
+	// multi-line literals; post-processing must leave them untouched
+	literalRanges [][2]int
 }
 
 // WriteString writes a string to the buffer
@@ -63,6 +67,20 @@ func (cw *CodeWriter) WriteSemi() {
 	if cw.WriteSemicolons {
 		cw.WriteRune(';')
 	}
+}
+
+// WriteLiteralText writes the content of a literal that may span several
+// lines and remembers where it is, so that it is exempt from clean-up.
+func (cw *CodeWriter) WriteLiteralText(s string) {
+	cw.flushPending()
+	start := cw.Builder.Len()
+	cw.WriteString(s)
+	cw.literalRanges = append(cw.literalRanges, [2]int{start, cw.Builder.Len()})
+}
+
+// LiteralRanges returns the byte ranges written with WriteLiteralText.
+func (cw *CodeWriter) LiteralRanges() [][2]int {
+	return cw.literalRanges
 }
 
 // String returns the accumulated string
